@@ -7,7 +7,7 @@ ID=$1; shift
 TIER=${1:-${VERIF_TIER:-quick}}; [ $# -gt 0 ] && shift
 ./setup.sh 1>&2 || { echo "setup failed" 1>&2; exit 3; }
 export FENICS_FFCX_VERIF=1
-export PYTHONPATH=/verif:/repo
+export PYTHONPATH=/verif:${VERIF_REPO:-/repo}
 export PYTHONDONTWRITEBYTECODE=1
 export PYTHONHASHSEED=${PYTHONHASHSEED:-0}
 export OMP_NUM_THREADS=1 OPENBLAS_NUM_THREADS=1
